@@ -51,6 +51,21 @@ pub(crate) fn find_top_level_comma(inner: &str) -> Option<usize> {
     None
 }
 
+/// Element type of an array `[T; N]` or a slice `[T]`
+pub(crate) fn array_element_type(rust_type: &str) -> Option<&str> {
+    let inner = rust_type.strip_prefix('[')?.strip_suffix(']')?;
+    let mut depth = 0i32;
+    for (i, ch) in inner.char_indices() {
+        match ch {
+            '<' | '(' | '[' => depth += 1,
+            '>' | ')' | ']' => depth -= 1,
+            ';' if depth == 0 => return Some(inner[..i].trim()),
+            _ => {}
+        }
+    }
+    Some(inner.trim())
+}
+
 /// Split a comma separated list of types at its top-level commas (a trailing comma is ignored)
 pub(crate) fn split_top_level_types(inner: &str) -> Vec<&str> {
     let mut parts = Vec::new();
@@ -245,6 +260,11 @@ impl TypeResolver {
         // Handle Vec<T> -> Array(T)
         if let Some(inner_type) = self.extract_vec_inner_type(cleaned) {
             return TypeStructure::Array(Box::new(self.parse_type_structure(&inner_type)));
+        }
+
+        // Handle [T; N] and [T] -> Array(T): serde writes both as a sequence
+        if let Some(element_type) = array_element_type(cleaned) {
+            return TypeStructure::Array(Box::new(self.parse_type_structure(element_type)));
         }
 
         // Handle HashMap<K, V> and BTreeMap<K, V> -> Map { key, value }
